@@ -61,5 +61,6 @@ for sd in sys.argv[2:]:
             out[sd] = {"error": str(e)}
     finally:
         subprocess.run(["git", "-C", R, "checkout", "--", "."], check=True)
+        subprocess.run(["git", "-C", R, "clean", "-fdq", "src"], check=True)  # files a patch created
     print(sd, {p: len(v) for p, v in out[sd].items()} if "error" not in out[sd] else out[sd], flush=True)
 json.dump(out, open(sys.argv[1], "w"), indent=1)
